@@ -494,6 +494,47 @@ Proof.
     unfold dolog; rewrite file_set_log, recs_putline by exact F; reflexivity.
 Qed.
 
+(* the same under the exact condition: the loggee is not written in the tick of this log's last record *)
+Lemma update_logs_sharp_l c t0 ss f0 pre i kvs mid r :
+  crule c = Update -> is_loggee c i = true -> (i < length ss)%nat ->
+  lstamp (run c t0 ss f0 pre) <> Some (now (run c t0 ss f0 pre)) ->
+  forallb is_world mid = true -> (r = Run \/ r = Stop) ->
+  let s := run c t0 ss f0 (pre ++ Write i kvs :: mid) in
+  active s = true ->
+  recs (file (step c s r)) = recs (file s) ++ [Rec (now s) (cells (shares s) (clog c) (pfields s))].
+Proof.
+  intros R Lg Hi Sch W Hr s Act.
+  set (sp := run c t0 ss f0 pre).
+  assert (Hlen : length (shares sp) = length ss).
+  { unfold sp, run. apply (runfrom_inv c (fun s => length (shares s) = length ss)); [|reflexivity].
+    intros s' o H. rewrite length_shares_world; assumption. }
+  assert (T : tl_inv sp (ran_after false pre)).
+  { unfold sp, run. apply tl_inv_run. intros tl E. discriminate E. }
+  fold sp in Sch.
+  assert (AW : after_write i (now sp) (lstamp sp) (active s) (file s) (length ss) s).
+  { assert (G : after_write i (now sp) (lstamp sp) (active (step c sp (Write i kvs))) (file (step c sp (Write i kvs))) (length ss) s).
+    { unfold s, run. change (pre ++ Write i kvs :: mid) with (pre ++ [Write i kvs] ++ mid).
+      rewrite !runfrom_app. fold (run c t0 ss f0 pre). fold sp.
+      apply (runfrom_inv_r c is_world); [|exact W|].
+      - intros s' o Wo H. apply after_write_step; assumption.
+      - unfold after_write. cbn -[getsh upd]. rewrite length_upd. repeat split; try lia.
+        exists (now sp). rewrite getsh_upd_same by lia. cbn. split; [reflexivity|lia]. }
+    destruct G as [G1 [_ [_ [G4 [G5 G6]]]]]. unfold after_write. repeat split; try assumption; reflexivity. }
+  destruct AW as [H1 [_ [_ [H4 [_ [t [H6 H7]]]]]]].
+  assert (F : file s <> None). { apply (open_ok_run c t0 ss f0 _ Act). }
+  assert (D : action c s = dolog c s).
+  { unfold action. rewrite R, H1. destruct (lstamp sp) as [tl|] eqn:E; [|reflexivity].
+    assert (X : existsb (stamped_after (shares s) tl) (clog c) = true).
+    { apply existsb_exists. destruct (is_loggee_in c i Lg) as [lg [Hin Hlg]]. exists lg. split; [exact Hin|].
+      unfold stamped_after. rewrite Hlg, H6. apply Z.ltb_lt.
+      destruct (T tl E) as [Ta Tb].
+      destruct (Z.eq_dec tl (now sp)) as [Q|Q]; [exfalso; apply Sch; congruence|lia]. }
+    rewrite X. reflexivity. }
+  destruct Hr as [Hr|Hr]; subst r; cbn [step]; rewrite Act, D; rewrite ?file_set_active;
+    unfold dolog; rewrite file_set_log, recs_putline by exact F; reflexivity.
+Qed.
+
+
 (* no share is stamped later than now *)
 Definition st_le (s : st) : Prop := forall i t, sstamp (getsh (shares s) i) = Some t -> t <= now s.
 
